@@ -41,7 +41,8 @@ def gen_adapter(tape, kinds):
 
 
 def gen_chain(tape, *, pull_source=False, max_len=3, allow_buffering=True, allow_delay=True,
-              allow_delay_push=True, delay_after_buffer_only=False, allow_integrating=True):
+              allow_delay_push=True, delay_after_buffer_only=False, allow_integrating=True,
+              delay_push_after_pull=False):
     """Random adapter chain (source side first)."""
     n = tape.weighted([(0, 8), (1, 7), (2, 4), (3, 2)])
     n = min(n, max_len)
@@ -56,7 +57,9 @@ def gen_chain(tape, *, pull_source=False, max_len=3, allow_buffering=True, allow
                 kinds += ["avg", "sum"]
         if allow_delay and not have_integ:
             kinds += ["delay_fixed", "delay_pull"]
-            if allow_delay_push and not pull_source:
+            if allow_delay_push and (not pull_source or delay_push_after_pull):
+                # behind a pull-based source the adapter is never notified of a publication: what it delivers is
+                # unspecified, but the link still has to be servable
                 kinds += ["delay_push"]
         a = gen_adapter(tape, kinds)
         k = a["kind"]
@@ -148,10 +151,11 @@ def gen_e1(tape, tier="quick", *, allow_pull=True, allow_cycles=True, allow_dela
 
     def add_link(src_ci, dst_ci, chain, share=True, same_output=None):
         c = comps[src_ci]
+        dyn = [k for k, o in enumerate(c["outputs"]) if not o.get("static")]
         if same_output is not None:
             oi = same_output
-        elif c["outputs"] and tape.chance(1, 2) and not (c["kind"] == "pull" and not pull_fanout):
-            oi = tape.draw(len(c["outputs"]))
+        elif dyn and tape.chance(1, 2) and not (c["kind"] == "pull" and not pull_fanout):
+            oi = dyn[tape.draw(len(dyn))]
         else:
             oi = new_output(src_ci)
         ii = new_input(dst_ci)
@@ -204,7 +208,8 @@ def gen_e1(tape, tier="quick", *, allow_pull=True, allow_cycles=True, allow_dela
             integ_up = ps and bool(comp_upstream_kinds(src) & {"avg", "sum"})
             chain = gen_chain(tape, pull_source=ps, allow_delay_push=allow_delay_push,
                               allow_delay=allow_delay and not integ_up, allow_buffering=allow_buffering,
-                              allow_integrating=allow_integrating)
+                              allow_integrating=allow_integrating,
+                              delay_push_after_pull=ps and not (comp_upstream_kinds(src) & {"avg", "sum", "delay_pull"}))
             add_link(src, ci, chain)
 
     # static sources: one publication valid for every time, read by static or ordinary inputs
@@ -218,6 +223,23 @@ def gen_e1(tape, tier="quick", *, allow_pull=True, allow_cycles=True, allow_dela
             ln = add_link(k, dst, ch, share=False)
             if comps[dst]["kind"] == "sim":
                 comps[dst]["inputs"][ln["dst"][1]]["static"] = tape.chance(1, 2)
+
+    # a static output owned by a time-stepped component, next to its dynamic ones
+    if allow_static and tape.chance(1, 6):
+        sims_pos = [p for p in range(len(order) - 1) if comps[order[p]]["kind"] == "sim" and "impl" not in comps[order[p]]]
+        if sims_pos:
+            p = sims_pos[tape.draw(len(sims_pos))]
+            k = order[p]
+            users = [order[q] for q in range(p + 1, len(order)) if comps[order[q]]["kind"] in ("sim", "pull")]
+            if users:
+                oi = new_output(k)
+                comps[k]["outputs"][oi]["static"] = True
+                for _ in range(tape.weighted([(1, 3), (2, 1)])):
+                    dst = users[tape.draw(len(users))]
+                    ch = [gen_adapter(tape, PASS) for _ in range(tape.weighted([(0, 3), (1, 1)]))]
+                    ln = add_link(k, dst, ch, share=False, same_output=oi)
+                    if comps[dst]["kind"] == "sim":
+                        comps[dst]["inputs"][ln["dst"][1]]["static"] = tape.chance(1, 2)
 
     # push-based sinks: components without time step whose inputs pull on every notification
     if allow_sinks and tape.chance(1, 5):
@@ -305,6 +327,23 @@ def gen_e1(tape, tier="quick", *, allow_pull=True, allow_cycles=True, allow_dela
             ln = add_link(late, early, chain, share=False)
             comps[early]["inputs"][ln["dst"][1]]["initial_pull"] = tape.chance(1, 2)
             cycles.append({"link": len(links) - 1, "regime": regime, "need": need})
+
+    # a static field derived from a producer's initial state by a component without time step: it pulls the producer
+    # once while connecting; whoever reads the static output does not depend on the producer's progress
+    if allow_static and tape.chance(1, 6):
+        prods = [i for i, c in enumerate(comps) if c["kind"] == "sim" and not c["inputs"]]
+        if prods:
+            a = prods[tape.draw(len(prods))]
+            users = [i for i, c in enumerate(comps) if c["kind"] == "sim" and i != a]
+            if users:
+                comps.append({"name": f"t{len(comps)}", "kind": "static", "inputs": [], "outputs": []})
+                k = len(comps) - 1
+                add_link(a, k, [gen_adapter(tape, PASS) for _ in range(tape.weighted([(0, 3), (1, 1)]))], share=False)
+                for _ in range(tape.weighted([(1, 3), (2, 1)])):
+                    dst = users[tape.draw(len(users))]
+                    ch = [gen_adapter(tape, PASS) for _ in range(tape.weighted([(0, 3), (1, 1)]))]
+                    ln = add_link(k, dst, ch, share=False)
+                    comps[dst]["inputs"][ln["dst"][1]]["static"] = tape.chance(1, 3)
 
     def upstream_kinds(ci, ii, depth=0):
         """adapter kinds on the link into (ci, ii) and, through pull comps, further upstream"""
@@ -396,7 +435,7 @@ def gen_e1(tape, tier="quick", *, allow_pull=True, allow_cycles=True, allow_dela
             if c["kind"] != "sim" or len(c["steps"]) != 1 or c.get("push_first") or c.get("next_none") or \
                     c.get("finish_at") is not None or c.get("cache") is False:
                 continue
-            if any(o.get("nopush") or o.get("info_at_init") is False for o in c["outputs"]) or \
+            if any(o.get("nopush") or o.get("static") or o.get("info_at_init") is False for o in c["outputs"]) or \
                     any(i.get("dup") or i.get("skip") or i.get("static") or i.get("info_at_init") is False
                         for i in c["inputs"]):
                 continue
@@ -415,6 +454,12 @@ def gen_e1(tape, tier="quick", *, allow_pull=True, allow_cycles=True, allow_dela
             for i in c["inputs"]:
                 i["initial_pull"] = True
             c["impl"] = impl
+            if impl == "cbcomp" and tape.chance(1, 3):
+                # the documented variant without initial pulls: the model is evaluated once, without inputs, while
+                # connecting
+                c["cb_initial_pull"] = False
+                for i in c["inputs"]:
+                    i["initial_pull"] = False
 
     t0 = min(c["start"] for c in comps if c["kind"] == "sim")
     span = tape.choice([3, 7, 12, 20, 24, 36, 48])
@@ -423,6 +468,10 @@ def gen_e1(tape, tier="quick", *, allow_pull=True, allow_cycles=True, allow_dela
           "start_given": tape.chance(1, 2), "cycles": cycles, "run_only": tape.chance(1, 2),
           "listing": tape.shuffle(list(range(len(comps)))),
           "link_order": tape.shuffle(list(range(len(links))))}
+    # forms of the public API used to build the same composition: bit 0 - slots described by Info objects instead of
+    # keywords, bit 1 - comp["slot"] / .chain() instead of comp.outputs["slot"] / >>, bit 2 - adapter constructor
+    # arguments in the other documented form (positional <-> keyword)
+    sc["api"] = tape.draw(8)
     return sc
 
 
